@@ -526,7 +526,8 @@ func c18SharedRound(e *Env, seq []string, conc bool, expect map[string]RenderRes
 	}
 }
 
-var C18AddrRe = regexp.MustCompile(`0x[0-9a-f]{6,}`)
+// (also upper-cased or reversed by a filter of the template: 0XC000…, …000cx0)
+var C18AddrRe = regexp.MustCompile(`(?i)0x[0-9a-f]{6,}|[0-9a-f]{6,}x0`)
 
 // c18MaskAddr: printed pointers differ between two context instances (that is C03's finding
 // prints-address, not a C18 matter)
